@@ -344,3 +344,262 @@ def build_c06(rng, tier):
 
 BUILDERS.update({'C14': build_c14, 'C16': build_c16, 'C18': build_c18,
                  'C06': build_c06})
+
+
+# ---------------------------------------------------------------------------
+# S-GEN: generator argument vectors
+# ---------------------------------------------------------------------------
+GEN_FLAGS = [('mp', '-mp'), ('numinst', '-numinst'), ('n1', '-n1'),
+             ('n2', '-n2'), ('n3', '-n3'), ('pmin', '-pmin'),
+             ('pmax', '-pmax'), ('uq', '-uq'), ('lq', '-lq'),
+             ('luq', '-luq'), ('lt', '-lt'), ('llq', '-llq'), ('t1', '-t1'),
+             ('t2', '-t2'), ('skew', '-skew')]
+REQUIRED = {'ha': ['n1', 'n2', 'pmin', 'pmax', 'uq'],
+            'sm': ['n1', 'pmin', 'pmax', 'twopl'],
+            'hr': ['n1', 'n2', 'pmin', 'pmax', 'uq', 'twopl'],
+            'spa': ['n1', 'n2', 'n3', 'pmin', 'pmax', 'uq', 'luq']}
+# parameters README documents only for other problem types
+BANNED = {'ha': ['twopl', 'n3', 't2', 'llq', 'luq', 'lt'],
+          'sm': ['n2', 'n3', 'uq', 'lq', 'llq', 'luq', 'lt'],
+          'hr': ['n3', 'llq', 'luq', 'lt'],
+          'spa': []}
+
+
+def gen_argv(params):
+    """Generator argument vector (without -o) from structured parameters."""
+    groups = []
+    for key, flag in GEN_FLAGS:
+        v = params.get(key)
+        if v is not None:
+            groups.append([flag, _num(v)])
+    if params.get('twopl'):
+        groups.append(['-twopl'])
+    order = params.get('flag_order')
+    if order:
+        order = [i for i in order if i < len(groups)]
+        rest = [i for i in range(len(groups)) if i not in order]
+        groups = [groups[i] for i in order + rest]
+    out = []
+    for g in groups:
+        out += g
+    return out
+
+
+def _num(v):
+    if isinstance(v, float) and v == int(v) and abs(v) < 1e15:
+        return repr(v)
+    return str(v)
+
+
+def gen_params(rng, mp=None, small=False, big_lists=False, twopl=None):
+    """An argument set the README documents as legal for the type."""
+    mp = mp or rng.choice(['ha', 'sm', 'hr', 'spa'])
+    hi1 = 4 if small else (6 if big_lists else 5)
+    hi2 = 4 if not big_lists else 6
+    p = {'mp': mp, 'numinst': rng.choice([1, 1, 2, 3])}
+    p['n1'] = rng.randint(1, hi1)
+    if mp != 'sm':
+        p['n2'] = rng.randint(1, hi2)
+    n2 = p.get('n2', p['n1'])
+    if mp == 'spa':
+        p['n3'] = rng.randint(1, 4)
+        if rng.random() < 0.15:
+            p['n3'] = rng.randint(n2, n2 + 2)
+    cap = min(n2, 3) if small else n2
+    p['pmax'] = rng.randint(1, cap)
+    p['pmin'] = rng.randint(1, p['pmax'])
+    if mp != 'sm':
+        p['uq'] = rng.randint(n2, n2 + 4)
+        if rng.random() < 0.5:
+            p['lq'] = rng.randint(0, p['uq']) if rng.random() < 0.5 \
+                else rng.randint(0, 2)
+            p['lq'] = min(p['lq'], p['uq'])
+    if mp == 'spa':
+        n3 = p['n3']
+        p['luq'] = rng.randint(1, n3 + 4)
+        if rng.random() < 0.6:
+            p['lt'] = rng.randint(0, p['luq'])
+            if rng.random() < 0.5:
+                p['llq'] = rng.randint(0, p['lt'])
+        elif rng.random() < 0.3:
+            p['llq'] = 0
+    if rng.random() < 0.7:
+        p['t1'] = rng.choice([0, 0.0, .3, .5, .7, 1, 1.0])
+    if mp != 'ha' and rng.random() < 0.7:
+        p['t2'] = rng.choice([0, 0.0, .3, .5, .7, 1, 1.0])
+    if rng.random() < 0.5:
+        p['skew'] = rng.choice([.5, 1, 1.0, 3, 10, 2.5])
+    if mp in ('sm', 'hr'):
+        p['twopl'] = True
+    elif mp == 'spa':
+        p['twopl'] = (rng.random() < 0.6) if twopl is None else twopl
+    else:
+        p['twopl'] = False
+    order = list(range(18))
+    rng.shuffle(order)
+    p['flag_order'] = order if rng.random() < 0.6 else None
+    return p
+
+
+def gen_base(rng, params, sessions=None, spy_ties=False):
+    return {'family': 'gen', 'params': params,
+            'rng': [rng.randrange(2 ** 31), rng.randrange(2 ** 31)],
+            'sessions': sessions or [], 'spy_ties': spy_ties,
+            'clock_seed': rng.randrange(2 ** 31)}
+
+
+def build_c08(rng, tier):
+    if rng.random() < 0.08:
+        # reachability of every list length: >= 300 lists of one class in
+        # one run (miss probability < 1e-20 for a correct implementation)
+        mp = rng.choice(['ha', 'hr', 'spa', 'sm'])
+        p = gen_params(rng, mp=mp)
+        p['n1'] = 6
+        if mp != 'sm':
+            p['n2'] = rng.randint(2, 5)
+            p['uq'] = p['n2'] + rng.randint(0, 3)
+            p.pop('lq', None)
+        n2 = p.get('n2', p['n1'])
+        p['pmax'] = rng.randint(2, min(n2, 5))
+        p['pmin'] = rng.randint(1, p['pmax'] - 1)
+        p['numinst'] = 60
+        sc = gen_base(rng, p)
+        sc['reach'] = True
+        return sc
+    return gen_base(rng, gen_params(rng))
+
+
+def build_c12(rng, tier):
+    mp = rng.choice(['sm', 'hr', 'spa', 'spa'])
+    p = gen_params(rng, mp=mp, twopl=True)
+    return gen_base(rng, p)
+
+
+def build_c13(rng, tier):
+    mp = rng.choice(['ha', 'sm', 'hr', 'spa', 'spa'])
+    p = gen_params(rng, mp=mp, big_lists=True,
+                   twopl=(rng.random() < 0.8))
+    n2 = p.get('n2', p['n1'])
+    p['pmax'] = rng.randint(max(1, n2 - 2), n2)
+    p['pmin'] = rng.randint(1, p['pmax'])
+    p['t1'] = rng.choice([.3, .5, .7, 1])
+    if mp != 'ha':
+        p['t2'] = rng.choice([.3, .5, .7, 1])
+    p['numinst'] = rng.choice([1, 2])
+    na = 3 if mp == 'spa' else 2
+    sessions = [{'file': '%d.txt' % k, 'na': na, 'twopl': bool(p['twopl']),
+                 'opts': {'criteria': []}, 'ops': []}
+                for k in range(p['numinst'])]
+    return gen_base(rng, p, sessions=sessions, spy_ties=True)
+
+
+def build_c09(rng, tier):
+    mp = rng.choice(['ha', 'sm', 'hr', 'spa', 'spa'])
+    p = gen_params(rng, mp=mp, small=True)
+    p['numinst'] = rng.choice([1, 1, 2])
+    na = 3 if mp == 'spa' else 2
+    twopl = bool(p['twopl'])
+    sessions = []
+    for k in range(p['numinst']):
+        # LP mode with a random admissible option set
+        mr = p['pmax']      # upper bound on the maximum rank
+        ncrit = rng.choice([0, 1, 1, 2, 3])
+        crit = gen_criteria(rng, ncrit, 1)
+        for c in crit:      # cut-offs must stay admissible for any max rank
+            if c['name'] == 'gen':
+                c['extra'] = [1] if c['extra'] else []
+            if c['name'] == 'gre' and c['extra']:
+                c['extra'] = [rng.randint(1, mr + 1)]
+        opts = {'criteria': crit, 'pc': rng.random() < 0.3,
+                'stab': twopl and rng.random() < 0.5}
+        order = list(range(len(crit) + 5))
+        rng.shuffle(order)
+        opts['flag_order'] = order
+        sessions.append({
+            'file': '%d.txt' % k, 'na': na, 'twopl': twopl, 'opts': opts,
+            'ops': [['solve', {}], ['get_results'], ['get_results_long'],
+                    ['get_debug']],
+            'backend': {'policy': rng.choice(POLICIES),
+                        'choice_seed': rng.randrange(2 ** 31),
+                        'duration_seed': rng.randrange(2 ** 31)}})
+        sessions.append({
+            'file': '%d.txt' % k, 'na': na, 'twopl': twopl,
+            'opts': {'criteria': [], 'bf': True, 'pc': rng.random() < 0.4},
+            'ops': [['solve', {}], ['get_results'], ['get_debug']],
+            'backend': {'policy': 'first'}})
+    return gen_base(rng, p, sessions=sessions)
+
+
+# ---------------------------------------------------------------------------
+# C15: single-fault perturbations of a legal vector
+# ---------------------------------------------------------------------------
+def perturbations(p):
+    """All single-fault perturbations of legal parameter set p:
+    (label, params, extra) triples."""
+    mp = p['mp']
+    out = []
+    for r in REQUIRED[mp]:
+        q = dict(p)
+        q[r] = None if r != 'twopl' else False
+        out.append(('drop-required:' + r, q, {}))
+    for r in ('numinst', 'mp'):
+        q = dict(p)
+        q[r] = None
+        out.append(('drop-required:' + r, q, {}))
+    out.append(('drop-required:o', dict(p), {'drop_o': True}))
+    n2 = p.get('n2', p['n1'])
+    for b in BANNED[mp]:
+        q = dict(p)
+        if b == 'twopl':
+            q[b] = True
+        elif b in ('n2', 'n3'):
+            q[b] = 2
+        elif b == 't2':
+            q[b] = 0.5
+        elif b == 'uq':
+            q[b] = n2 + 1
+        elif b == 'luq':
+            q[b] = 3
+        else:
+            q[b] = 1
+        out.append(('banned:' + b, q, {}))
+
+    def viol(label, **kw):
+        q = dict(p)
+        q.update(kw)
+        out.append(('bound:' + label, q, {}))
+    viol('numinst=0', numinst=0)
+    viol('n1=0', n1=0)
+    if mp != 'sm':
+        viol('n2=0', n2=0)
+        viol('uq<n2', uq=n2 - 1)
+        viol('lq>uq', lq=p['uq'] + 1)
+        viol('lq<0', lq=-1)
+    if mp == 'spa':
+        viol('n3=0', n3=0)
+        viol('luq<1', luq=0, lt=None, llq=None)
+        viol('lt>luq', lt=p['luq'] + 1)
+        viol('llq>lt', llq=(p.get('lt') or 0) + 1)
+        viol('lt<0', lt=-1, llq=None)
+        viol('llq<0', llq=-1)
+    viol('pmin=0', pmin=0)
+    viol('pmax=0', pmax=0, pmin=0)
+    viol('pmin>pmax', pmin=p['pmax'] + 1)
+    viol('pmax>n2', pmax=n2 + 1)
+    viol('t1<0', t1=-0.1)
+    viol('t1>1', t1=1.1)
+    if mp != 'ha':
+        viol('t2<0', t2=-0.1)
+        viol('t2>1', t2=1.1)
+    return out
+
+
+def build_c15(rng, tier):
+    p = gen_params(rng)
+    sc = gen_base(rng, p)
+    sc['expect'] = 'accept'
+    return sc
+
+
+BUILDERS.update({'C08': build_c08, 'C12': build_c12, 'C13': build_c13,
+                 'C09': build_c09, 'C15': build_c15})
